@@ -149,6 +149,18 @@ EXTRA4 = {
  "C18": "Every case ends with a commit through a fresh handle once all actors returned (a lock nobody should hold any more must not block it).",
  "C19": "S3: the process time zone is part of the scenario (EET-2 / PST8 / IST-5:30 / NZST-12); all actor orders for holder / lapse / takeover + release / is_held() probe.",
 }
+EXTRA5 = {
+ "C03": "Operations include 'replace' (delete_files + append_data in ONE transaction: one commit point).",
+ "C04": "Operations include 'replace'; ParquetWriter.write is an injectable step (errors / interrupts while rows stream into the data file).",
+ "C07": "Escaping listings also in the mixed form: first entry right, the others spelled '../<table dir>/...' (resolving to live files).",
+ "C09": "A failing commit may hand in a DataFile the table already lists (the file is the table's, not the transaction's).",
+ "C11": "Record appends may run with the k-th write of rows into the parquet file failing once.",
+ "C14": "Combined damage: data file replaced by another valid file AND its first read attempt failing.",
+ "C15": "Histories include transactions that stay open across other commits.",
+ "C17": "A third root spelling: '<base>/hop/../root' with hop a symlink to a sibling directory (create-or-open must create nothing anywhere).",
+}
+for _k, _v in EXTRA5.items():
+    EXTRA4[_k] = (EXTRA4.get(_k, "") + " " + _v).strip()
 for _k, _v in EXTRA2.items():
     EXTRA[_k] = (EXTRA.get(_k, "") + " " + _v).strip()
 for _k, _v in EXTRA4.items():
